@@ -75,6 +75,17 @@ def scenarios():
     for size in (4094, 4095, 4096, 4097, 4098, 8190, 8192, 8194):
         d = bytes((i * 7 + 13) % 256 for i in range(size))
         add(f"get-{size}", ("get", "k"), v(b"k", d) + b"END\r\n")
+    # replies that take MANY receive calls whatever the piece size: more than a thousand pieces of the full receive size (a dump of several
+    # megabytes, one big value), more than a thousand lines / values in one reply (each of them also delivered byte by byte below)
+    hn = 4096 * 1100 + 50
+    hbody = bytes(97 + (i * 7) % 26 for i in range(4096)) * 1100 + b"z" * 43
+    add("huge-raw-dump", ("raw", b"lru_crawler metadump all", b"END\r\n"), hbody + b"\r\nEND\r\n")
+    add("huge-get-value", ("get", "k"), v(b"k", hbody) + b"END\r\n")
+    add("many-stats-lines", ("stats",), b"".join(b"STAT s%d %d\r\n" % (i, i) for i in range(1300)) + b"END\r\n")
+    many = ["k%d" % i for i in range(1200)]
+    add("many-values", ("get_many", many), b"".join(v(k_.encode(), b"v") for k_ in many) + b"END\r\n")
+    add("many-raw-lines", ("raw", b"config get cluster", AWS_TOKEN),
+        b"CONFIG cluster 0 9999\r\n12\n" + b" ".join(b"node%d.cache.example.com|10.0.%d.%d|11211" % (i, i // 250, i % 250) for i in range(60)) + b"\n\r\nEND\r\n")
     return S
 
 
@@ -122,7 +133,14 @@ def segmentations(ctx, n, big):
             yield from itertools.combinations(pos, r)
         return
     yield ()
+    if n > 100000:
+        yield tuple(range(4096, n, 4096))
+        yield tuple(range(4095, n, 4096))
+        yield tuple(range(1, n, 1000))
+        return
     if big:
+        yield tuple(pos)                   # all single bytes: as many receive calls as the reply has bytes
+        yield tuple(range(2, n, 3))
         al = [p for p in (4096, 8192) if p < n]
         near = sorted({q for p in al for q in range(p - 3, p + 4) if 0 < q < n} | {1, 2, n - 1, n - 2, n - 7, n - 8})
         near = [q for q in near if 0 < q < n]
